@@ -214,7 +214,7 @@ class ApplicationAssociationRequest:
         if not aarq_tag == cls.TAG:
             raise ValueError("Bytes are not an AARQ APDU. TAg is not int(96)")
 
-        aarq_length = aarq_data.pop(0)
+        aarq_length = BER.pop_length(aarq_data)
 
         if not len(aarq_data) == aarq_length:
             raise ValueError(
@@ -236,7 +236,7 @@ class ApplicationAssociationRequest:
                     f"in AARQ definition"
                 )
 
-            object_length = aarq_data.pop(0)
+            object_length = BER.pop_length(aarq_data)
             object_data = bytes(aarq_data[:object_length])
             aarq_data = aarq_data[object_length:]
 
